@@ -28,14 +28,14 @@ type c20Reg struct {
 }
 
 type c20Case struct {
-	Regs               []c20Reg     `json:"regs"`
-	NativeOn           bool         `json:"nativeOn"`
-	ActivateBeforeCreate bool       `json:"activateBeforeCreate"`
-	ViaSetInterpreter  bool         `json:"viaSetInterpreter"`
-	SetBeforeCreate    bool         `json:"setBeforeCreate"`
-	RegisterLate       bool         `json:"registerLate"` // registrations added after the tables exist
-	Items              []model.Item `json:"items"`
-	Req                model.Op     `json:"req"`
+	Regs                 []c20Reg     `json:"regs"`
+	NativeOn             bool         `json:"nativeOn"`
+	ActivateBeforeCreate bool         `json:"activateBeforeCreate"`
+	ViaSetInterpreter    bool         `json:"viaSetInterpreter"`
+	SetBeforeCreate      bool         `json:"setBeforeCreate"`
+	RegisterLate         bool         `json:"registerLate"` // registrations added after the tables exist
+	Items                []model.Item `json:"items"`
+	Req                  model.Op     `json:"req"`
 }
 
 var c20Texts = map[string][]string{
@@ -128,8 +128,8 @@ func c20Schema(name string) *model.Schema {
 }
 
 type c20Info struct {
-	weak     bool
-	anagram  bool
+	weak      bool
+	anagram   bool
 	otherSlot bool
 }
 
